@@ -162,15 +162,20 @@ def all_codes(cfg):
     return cs
 
 
-OTHER_TYPES = [2, 4, 4, 5, 0x11, 0x11, 0x12, 0x14, 0x15, 0x17, 0x1f]     # EV_REL, EV_MSC (precedes every key press on a real keyboard), EV_SW, EV_LED, EV_SND, EV_REP, EV_FF, EV_FF_STATUS, EV_MAX
+OTHER_TYPES = [2, 4, 4, 5, 0x11, 0x11, 0x12, 0x14, 0x15, 0x17, 0x1f, 0, 0]     # (0 = EV_SYN with a code other than SYN_REPORT: SYN_DROPPED, SYN_CONFIG, SYN_MT_REPORT) EV_REL, EV_MSC (precedes every key press on a real keyboard), EV_SW, EV_LED, EV_SND, EV_REP, EV_FF, EV_FF_STATUS, EV_MAX
 
 
 def other_event(rng, cfg, code=None):
     """an event of a type the device must not interpret, with the CODE of one of the configuration's keys (note, action or exit-sequence key)
     and a value that would mean press / release / repeat if it were a key event"""
+    ty = rng.choice(OTHER_TYPES)
+    if ty == 0:
+        # the kernel's queue overran (SYN_DROPPED) or another synchronisation marker: the device keeps no per-packet state, so the events that
+        # follow are processed like any others (the stream stage sends them with no SYN_REPORT in between)
+        return {"t": "o", "ty": 0, "sub": "", "code": rng.choice([3, 3, 3, 1, 2]), "val": 0}
     if code is None:
         sub, code = rng.choice(all_codes(cfg))
-    return {"t": "o", "ty": rng.choice(OTHER_TYPES), "sub": "", "code": code, "val": rng.choice([1, 1, 0, 0, 2, -3, 458756])}
+    return {"t": "o", "ty": ty, "sub": "", "code": code, "val": rng.choice([1, 1, 0, 0, 2, -3, 458756])}
 
 
 def gen_history(rng, cfg, n, p_action=0.3, avoid_exit=True, repeats=True, max_down=6, action_discipline=False, others=True):
